@@ -15,6 +15,9 @@ pub open spec fn msub(a: Map<Commodity, real>, b: Map<Commodity, real>) -> Map<C
 pub open spec fn mneg(a: Map<Commodity, real>) -> Map<Commodity, real> {
     a.map_values(|v: real| -v)
 }
+pub open spec fn mdiv(a: Map<Commodity, real>, k: real) -> Map<Commodity, real> {
+    a.map_values(|v: real| v / k)
+}
 pub open spec fn mscale(a: Map<Commodity, real>, k: real) -> Map<Commodity, real> {
     a.map_values(|v: real| v * k)
 }
